@@ -2,7 +2,7 @@
    Print Assumptions.  [reachable c s]: s is reached from the empty queue by ANY finite sequence of atomic
    sections (labels) of any number of producers, consumers, completions, cancellations and a shutdown —
    i.e. every interleaving; sizes are arbitrary integers (in-memory) / arbitrary non-negative (persistent). *)
-From Verif Require Import Common.Base C02.Model C02.Proofs C02.Proofs2 C02.Proofs3 C02.Proofs4 C02.Proofs5 C02.Proofs6 C02.Proofs7 C02.Proofs8.
+From Verif Require Import Common.Base C02.Model C02.Proofs C02.Proofs2 C02.Proofs3 C02.Proofs4 C02.Proofs5 C02.Proofs6 C02.Proofs7 C02.Proofs8 C02.Obligations Generated.C02Queue.
 Local Open Scope Z_scope.
 
 (* --- reported size -------------------------------------------------------------------------------------- *)
@@ -50,7 +50,7 @@ Proof. exact offer_degenerate_l. Qed.
 
 (* a blocked producer that received a wake-up token is admitted exactly when its request fits now *)
 Theorem relock_admitted_iff : forall c s p s' z sz,
-  blocking c = true -> pget p (prods s) = Some (PLeftTok sz) ->
+  blocking c = true -> pget p (prods s) = Some (PLeftTok sz) -> find_id p (faulty s) = None ->
   step c s (LRelockTok p) = Some (s', z) ->
   ((z = c_enq \/ z = c_await) <-> size s + sz <= cap c) /\
   (z = c_blocked <-> size s + sz > cap c) /\
@@ -299,16 +299,54 @@ Proof. exact pq_resync_on_empty_l. Qed.
    this covers the persistent queue's remaining refusal causes: Encoding.Marshal fails or the storage write fails
    (label LOfferF, from ANY state).  The capacity loop runs first (full => ErrQueueIsFull as usual); past it the
    error is returned and size, queue contents, histories, the cond's state, parked consumers and the pool are
-   untouched — only the producer's own result is recorded. *)
+   untouched — only the producer's own result is recorded.  With block_on_overflow a faulty request that does not
+   fit parks like any other (and later steals a wake-up: faulty_waiter_steals_wakeup_refuted). *)
 Theorem faulty_offer_changes_nothing : forall c s p sz k s' z,
   step c s (LOfferF p sz k) = Some (s', z) ->
   kind c = Pers /\ lock s = Free /\
-  (exists r, s' = setp p (PRet r) s /\ refused_result r = true) /\
-  (size s + sz > cap c -> z = c_full /\ blocking c = false /\ pget p (prods s') = Some (PRet RFull)) /\
-  (size s + sz <= cap c -> z = k /\ pget p (prods s') = Some (PRet (RErr k))) /\
+  (size s + sz <= cap c -> z = k /\ s' = setp p (PRet (RErr k)) s) /\
+  (size s + sz > cap c -> blocking c = false -> z = c_full /\ s' = setp p (PRet RFull) s) /\
+  (size s + sz > cap c -> blocking c = true ->
+     z = c_blocked /\ pget p (prods s') = Some (PInSelect sz) /\ waiting s' = waiting s + 1 /\
+     faulty s' = faulty s ++ [(p, k)]) /\
   size s' = size s /\ items s' = items s /\ inflight s' = inflight s /\ acc s' = acc s /\ hand s' = hand s /\
-  waiting s' = waiting s /\ tok s' = tok s /\ cons s' = cons s /\ held s' = held s /\ pool s' = pool s.
+  tok s' = tok s /\ cons s' = cons s /\ held s' = held s /\ pool s' = pool s.
 Proof. exact faulty_offer_changes_nothing_l. Qed.
+
+(* FINDING C02-FAULTY-WAITER-STEALS-WAKEUP (persistent queue, block_on_overflow, enqueue-path faults; confirmed on the
+   implementation by the harness scenario vFaultyWaiter): every request offered fits the capacity, two parked
+   producers whose request cannot be stored swallow the two Signals of the draining queue and return their errors
+   without passing the wake-up on; producer 3, whose request fits, stays parked for ever on an empty idle queue. *)
+Theorem faulty_waiter_steals_wakeup_refuted :
+  exists c s, kind c = Pers /\ blocking c = true /\ run c init fw_trace = Some s /\
+    Forall (fit_label c) fw_trace /\
+    quiescent c s /\ lock s = Free /\ size s = 0 /\ items s = [] /\ inflight s = [] /\ tok s = false /\
+    waiting s = 1 /\ hand s = [0%nat] /\ fin s = [(0%nat, 0)] /\
+    pget 1%nat (prods s) = Some (PRet (RErr c_marshal)) /\ pget 2%nat (prods s) = Some (PRet (RErr c_storeerr)) /\
+    pget 3%nat (prods s) = Some (PInSelect 1) /\ 1 <= cap c /\ ~ In 3%nat (cancelled s) /\ ~ all_returned s.
+Proof. exact faulty_waiter_steals_wakeup_refuted_l. Qed.
+
+(* --- obligations against translator T1 (coq/Generated/C02Queue.v, regenerated from the current source) ---------- *)
+Theorem capacity_is_configured : forall c,
+  mq_Capacity (cap c) = model_capacity c /\ pq_Capacity (cap c) = model_capacity c.
+Proof. exact capacity_is_configured_l. Qed.
+
+Theorem has_elements_is_nonempty : forall l, lq_hasElements (head_isnil l) = has_elements l.
+Proof. exact has_elements_is_nonempty_l. Qed.
+
+(* the method sets of the modelled types are the audited api_ lists of Obligations.v: a method added to or removed
+   from cond / memoryQueue / persistentQueue / asyncQueue / blockingDone / indexDone / linkedQueue breaks these *)
+Theorem cond_api_is_modelled : ms_cond = api_cond.
+Proof. exact cond_api_is_modelled_l. Qed.
+Theorem memory_queue_api_is_modelled : ms_memoryQueue = api_memory_queue.
+Proof. exact memory_queue_api_is_modelled_l. Qed.
+Theorem persistent_queue_api_is_modelled : ms_persistentQueue = api_persistent_queue.
+Proof. exact persistent_queue_api_is_modelled_l. Qed.
+Theorem async_queue_api_is_modelled : ms_asyncQueue = api_async_queue.
+Proof. exact async_queue_api_is_modelled_l. Qed.
+Theorem done_and_list_api_is_modelled :
+  ms_blockingDone = api_done /\ ms_indexDone = api_done /\ ms_linkedQueue = api_linked_queue.
+Proof. exact done_and_list_api_is_modelled_l. Qed.
 
 Print Assumptions mq_size_exact.
 Print Assumptions pq_size_bounds.
@@ -338,3 +376,11 @@ Print Assumptions broadcast_step.
 Print Assumptions consumer_no_lost_wakeup.
 Print Assumptions pq_resync_on_empty.
 Print Assumptions faulty_offer_changes_nothing.
+Print Assumptions faulty_waiter_steals_wakeup_refuted.
+Print Assumptions capacity_is_configured.
+Print Assumptions has_elements_is_nonempty.
+Print Assumptions cond_api_is_modelled.
+Print Assumptions memory_queue_api_is_modelled.
+Print Assumptions persistent_queue_api_is_modelled.
+Print Assumptions async_queue_api_is_modelled.
+Print Assumptions done_and_list_api_is_modelled.
